@@ -40,7 +40,7 @@ import (
 	"strings"
 )
 
-type rules struct{ net, sync, gostmt, chans, rand, time, fine bool }
+type rules struct{ net, sync, gostmt, chans, rand, time, fine, hook bool }
 
 var pkgs = map[string]rules{
 	"cmd/rdpgw/protocol":  {net: true, sync: true, gostmt: true, chans: true, time: true},
@@ -113,7 +113,7 @@ func main() {
 	gorillaMutex(*repo, *out, replace)
 	// helper packages of golang.org/x/sync block in sync primitives of their own: inside a controlled execution
 	// they have to block as threads of the execution
-	modulePackages(*repo, *out, replace, "golang.org/x/sync", []string{"singleflight", "errgroup", "semaphore"}, rules{sync: true, gostmt: true, chans: true})
+	syncHookPackage(*out, replace, "golang.org/x/sync", "singleflight")
 	j, _ := json.MarshalIndent(map[string]any{"Replace": replace}, "", " ")
 	if err := os.WriteFile(filepath.Join(*out, "overlay.json"), j, 0o644); err != nil {
 		die("%v", err)
@@ -234,6 +234,111 @@ func rangeLoops(name string, src []byte, at map[int]bool) []byte {
 	}
 	return out
 }
+
+// syncHookPackage rewrites one package of a dependency so that its mutexes, wait groups and go statements go
+// through function variables the harness sets (a dependency cannot import the scheduler: it belongs to another
+// module). The version is the one in the worker's build list.
+func syncHookPackage(out string, replace map[string]string, module, sub string) {
+	cmd := exec.Command("go", "list", "-m", "-f", "{{.Dir}}", module)
+	cmd.Dir = "/verif"
+	b, err := cmd.Output()
+	dir := strings.TrimSpace(string(b))
+	if err != nil || dir == "" {
+		return
+	}
+	dir = filepath.Join(dir, sub)
+	ents, err := os.ReadDir(dir)
+	if err != nil {
+		return
+	}
+	shimDone := false
+	for _, e := range ents {
+		n := e.Name()
+		if e.IsDir() || !strings.HasSuffix(n, ".go") || strings.HasSuffix(n, "_test.go") {
+			continue
+		}
+		src := filepath.Join(dir, n)
+		b, err := os.ReadFile(src)
+		if err != nil {
+			die("%v", err)
+		}
+		t := string(b)
+		if !strings.Contains(t, "sync.Mutex") && !strings.Contains(t, "sync.WaitGroup") && !strings.Contains(t, "\tgo ") {
+			continue
+		}
+		t = strings.ReplaceAll(t, "sync.Mutex", "verifMutex")
+		t = strings.ReplaceAll(t, "sync.WaitGroup", "verifWaitGroup")
+		nb, _ := rewrite(src, []byte(t), rules{gostmt: true, hook: true})
+		nb = append(nb, []byte("\nvar _ sync.Locker\n")...)
+		if !shimDone {
+			// (a file added to a module-cache package through the overlay is not seen by the go command: the
+			// shim goes to the end of a file that exists)
+			nb = append(nb, []byte(syncShim)...)
+			shimDone = true
+		}
+		dst := filepath.Join(out, strings.NewReplacer("/", "_", ".", "_").Replace(module+"_"+sub)+"_"+n)
+		if err := os.WriteFile(dst, nb, 0o644); err != nil {
+			die("%v", err)
+		}
+		replace[src] = dst
+	}
+}
+
+const syncShim = `
+// VerifSync: set by the verification harness; nil functions mean the real primitives.
+var VerifSync struct {
+	Lock, Unlock func(key any)
+	WgAdd        func(key any, d int)
+	WgWait       func(key any)
+	Go           func(name string, f func())
+}
+
+type verifMutex struct{ real sync.Mutex }
+
+func (m *verifMutex) Lock() {
+	if VerifSync.Lock != nil {
+		VerifSync.Lock(m)
+		return
+	}
+	m.real.Lock()
+}
+
+func (m *verifMutex) Unlock() {
+	if VerifSync.Unlock != nil {
+		VerifSync.Unlock(m)
+		return
+	}
+	m.real.Unlock()
+}
+
+type verifWaitGroup struct{ real sync.WaitGroup }
+
+func (w *verifWaitGroup) Add(d int) {
+	if VerifSync.WgAdd != nil {
+		VerifSync.WgAdd(w, d)
+		return
+	}
+	w.real.Add(d)
+}
+
+func (w *verifWaitGroup) Done() { w.Add(-1) }
+
+func (w *verifWaitGroup) Wait() {
+	if VerifSync.WgWait != nil {
+		VerifSync.WgWait(w)
+		return
+	}
+	w.real.Wait()
+}
+
+func verifGo(name string, f func()) {
+	if VerifSync.Go != nil {
+		VerifSync.Go(name, f)
+		return
+	}
+	go f()
+}
+`
 
 func modCache() string {
 	cache := os.Getenv("GOMODCACHE")
@@ -498,8 +603,8 @@ func rewrite(name string, src []byte, r rules) ([]byte, bool) {
 						if len(lhs) > 0 {
 							pre = strings.Join(lhs, ", ") + " := " + strings.Join(rhs, ", ") + "; "
 						}
-						ed = &edit{off(v.Pos()), off(v.End()), fmt.Sprintf("{ %svsched.Go(%q, func() { %s(%s) }) }", pre, id.Name, id.Name, strings.Join(args, ", "))}
-						needSched = true
+						ed = &edit{off(v.Pos()), off(v.End()), fmt.Sprintf("{ %s%s(%q, func() { %s(%s) }) }", pre, goFn(r), id.Name, id.Name, strings.Join(args, ", "))}
+						needSched = !r.hook
 						break
 					}
 					label := strings.Map(func(r rune) rune {
@@ -523,9 +628,9 @@ func rewrite(name string, src []byte, r rules) ([]byte, bool) {
 						}
 						args = append(args, v)
 					}
-					ed = &edit{off(v.Pos()), off(v.End()), fmt.Sprintf("{ %s := %s; vsched.Go(%q, func() { vsF(%s) }) }",
-						strings.Join(lhs, ", "), strings.Join(rhs, ", "), label, strings.Join(args, ", "))}
-					needSched = true
+					ed = &edit{off(v.Pos()), off(v.End()), fmt.Sprintf("{ %s := %s; %s(%q, func() { vsF(%s) }) }",
+						strings.Join(lhs, ", "), strings.Join(rhs, ", "), goFn(r), label, strings.Join(args, ", "))}
+					needSched = !r.hook
 				case *ast.SendStmt:
 					ed = &edit{off(v.Pos()), off(v.End()), fmt.Sprintf("vsched.ChanSend(%s, %s)", text(v.Chan), text(v.Value))}
 					needSched = true
@@ -623,6 +728,13 @@ func insertYields(name string, src []byte) ([]byte, int) {
 		out = append(out[:offs[i]], append(ins, out[offs[i]:]...)...)
 	}
 	return out, len(offs)
+}
+
+func goFn(r rules) string {
+	if r.hook {
+		return "verifGo"
+	}
+	return "vsched.Go"
 }
 
 func unparen(e ast.Expr) ast.Expr {
